@@ -14,23 +14,27 @@ top-level lines of the file with everything nested below them, one `LRow` per da
 
 Everything else is computed and checked in Lean:
 
-* `lineViol` : the **Lean model** of the reader (`Spec.NumDB.matchLine`, `findallProps`, `parseLine`) applied to
-  `raw` must give exactly `ranges`/`props`, rendering the parse must give back `raw` character by character
-  (so nothing on the line was skipped), and the indentation must follow the stack discipline that yields `depth`;
+* `lineOk` : writing the row's ranges and properties back in the file's own format (`renderRow`) reproduces `raw`
+  character by character — so nothing on the line was skipped or cut (a quotation mark inside a value, a repeated
+  key, stray text, irregular spacing all break it); `indentsOk` : the indentation follows the stack discipline
+  that yields `depth`; `treeComplete` : the rebuilt tree uses every row;
 * `treeOf` rebuilds the entry tree (`Spec.NumDB.Entry`) from the rows;
 * `violations` lists every structural defect of a tree: malformed range / property, the same range twice with
   contradicting properties, an entry shadowed by a shorter matching sibling, overlapping ranges that both carry
-  children.
-  `WF db := violations db = []`.
+  children.  `WF db := violations db = []`.
+
+That the **Lean model of the reader** (`Spec.NumDB.readText`) builds the same tree from the file text is proved
+in the kernel for the small registries (`<name>_link.lean`: `readsTo`, `Gen.db_<name>.db = tree`) and tested natively
+for all (tools/corr/numdb.py).
 -/
 namespace Props.C11
 open Spec.NumDB
 open Py (Str)
 
 open Lean Elab Term in
-/-- `str% "ab"` elaborates to the code-point list `[97, 98]` (raw `Nat` literals: the kernel compares them
+/-- `cp% "ab"` elaborates to the code-point list `[97, 98]` (raw `Nat` literals: the kernel compares them
 without unfolding `OfNat` instances) -/
-elab "str% " x:str : term => do
+elab "cp% " x:str : term => do
   let nat := Lean.mkConst ``Nat
   let nil := mkApp (Lean.mkConst ``List.nil [Level.zero]) nat
   let cons := mkApp (Lean.mkConst ``List.cons [Level.zero]) nat
@@ -133,6 +137,43 @@ def renderRow (r : LRow) : Str :=
 line character by character (a quote inside a value, a second `key=` for the same key, text that is not a
 `key="value"` item, or irregular spacing break this), and there is at least one range -/
 def lineOk (r : LRow) : Bool := !r.ranges.isEmpty && renderRow r == r.raw
+
+/-! ### the same check without building the rendered line -/
+
+/-- `eat p s = some rest` iff `s = p ++ rest` -/
+def eat : Str → Str → Option Str
+  | [], s => some s
+  | _ :: _, [] => none
+  | a :: p, b :: s => if a = b then eat p s else none
+
+def eatAll : List Str → Str → Option Str
+  | [], s => some s
+  | p :: ps, s =>
+    match eat p s with
+    | some rest => eatAll ps rest
+    | none => none
+
+def rangePieces (r : Str × Option Str) : List Str :=
+  match r.2 with
+  | none => [r.1]
+  | some h => [r.1, [45], h]
+
+def rangesPieces : List (Str × Option Str) → List Str
+  | [] => []
+  | [r] => rangePieces r
+  | r :: rs => rangePieces r ++ [44] :: rangesPieces rs
+
+def propPieces (kv : Str × Str) : List Str := [[32], kv.1, [61, 34], kv.2, [34]]
+
+/-- the pieces of `renderRow` -/
+def rowPieces (r : LRow) : List Str :=
+  List.replicate r.indent 32 :: (rangesPieces r.ranges ++ r.props.flatMap propPieces)
+
+/-- `lineOk`, evaluated piece by piece (`Props.C11.lineOkFast_eq` in `Lift.lean`) -/
+def lineOkFast (r : LRow) : Bool :=
+  !r.ranges.isEmpty && (match eatAll (rowPieces r) r.raw with | some [] => true | _ => false)
+
+def lineViolationsFast (rows : List LRow) : List Str := (rows.filter (fun r => !lineOkFast r)).map (·.raw)
 
 /-- indentation stack discipline: a deeper indent opens a level below the previous line, a smaller or
 equal indent must return to a level that is still open.  State: open indents, innermost first. -/
@@ -254,31 +295,73 @@ def WF (db : List Entry) : Prop := violations db = []
 
 instance (db : List Entry) : Decidable (WF db) := inferInstanceAs (Decidable (_ = _))
 
-/-! ## linear check of sorted sibling lists
+/-! ## near-linear check of sibling lists
 
-`levelViol` is quadratic.  Most sibling lists of the shipped files are sorted in the following strong sense,
-which is checked by one pass and excludes every pair defect (`Props.C11.sortedOk_sound` in `Lift.lean`):
-each `high` is `≪` the next `low`, where `x ≪ y` means that the two strings differ at a position both have
-and `x` is smaller there (so neither is a prefix of the other: ranges of *different* lengths are covered too),
-or the next range is the same range again and the pair has no defect.  Lists that are not sorted this way
-(a catch-all `00-99` after the specific codes, wrapped branch numbers …) are checked pair by pair. -/
+`levelViol` is quadratic.  The check below is tried first; it excludes every pair defect
+(`Props.C11.sortedOk_sound` in `Lift.lean`) and costs one pass for lists as the shipped files have them:
+
+* every entry is a proper range and the `low`s never decrease in the order `⪯` (`x ⪯ y` iff `x = y` or `x ≪ y`,
+  where `x ≪ y` means that the two strings differ at a position both have and `x` is smaller there — so neither
+  is a prefix of the other and ranges of *different* lengths are covered too);
+* every entry `e` is compared with its successors one by one until the first successor `n` with `e.high ≪ n.low`
+  (from there on nothing can overlap `e`, be shadowed by it or shadow it).
+
+If the list itself does not pass, its merge-sorted copy (by `low`; a pair defect does not depend on the order) is
+tried; only if that fails too (e.g. where a three-digit code sits next to the two-digit code that is its prefix)
+the list is checked pair by pair. -/
 
 /-- `x ≪ y` -/
 def lll : Str → Str → Bool
   | a :: as, b :: bs => if a < b then true else if b < a then false else lll as bs
   | _, _ => false
 
-/-- `e` against the entries after it -/
+/-- `x ⪯ y` -/
+def lle (a b : Str) : Bool := (a == b) || lll a b
+
+def lowsSorted : List Entry → Bool
+  | [] => true
+  | [_] => true
+  | a :: b :: l => lle a.low b.low && lowsSorted (b :: l)
+
+/-- `e` against the entries after it, up to the first one that lies entirely behind `e` -/
 def headOk (e : Entry) : List Entry → Bool
   | [] => true
-  | n :: rest => lll e.high n.low || (sameRange e n && !pairBad e n && headOk e rest)
+  | n :: rest => lll e.high n.low || (!pairBad e n && headOk e rest)
 
-def sortedOk : List Entry → Bool
+def scanOk : List Entry → Bool
   | [] => true
-  | e :: es => rangeOk e && headOk e es && sortedOk es
+  | e :: es => headOk e es && scanOk es
 
-/-- `levelViol` with the linear pass tried first -/
-def levelCheck (path : List Str) (l : List Entry) : List Viol := if sortedOk l then [] else levelViol path l
+def sortedOk (l : List Entry) : Bool := l.all rangeOk && lowsSorted l && scanOk l
+
+/-! ### merge sort by `low` (only used as a permutation; what it achieves is *checked* by `sortedOk`) -/
+
+def halve : List Entry → List Entry × List Entry
+  | [] => ([], [])
+  | [a] => ([a], [])
+  | a :: b :: l => (a :: (halve l).1, b :: (halve l).2)
+
+def mergeF : Nat → List Entry → List Entry → List Entry
+  | 0, xs, ys => xs ++ ys
+  | _ + 1, [], ys => ys
+  | _ + 1, xs, [] => xs
+  | f + 1, x :: xs, y :: ys =>
+    if strLe x.low y.low then x :: mergeF f xs (y :: ys) else y :: mergeF f (x :: xs) ys
+
+def msortF : Nat → List Entry → List Entry
+  | 0, l => l
+  | f + 1, l =>
+    match l with
+    | [] => []
+    | [a] => [a]
+    | _ => mergeF l.length (msortF f (halve l).1) (msortF f (halve l).2)
+
+/-- the list sorted by `low` (a permutation of the list: `Props.C11.msort_perm`) -/
+def msort (l : List Entry) : List Entry := msortF l.length l
+
+/-- `levelViol` with the cheap checks tried first -/
+def levelCheck (path : List Str) (l : List Entry) : List Viol :=
+  if sortedOk l then [] else if sortedOk (msort l) then [] else levelViol path l
 
 mutual
 /-- `belowE` with `levelCheck` for `levelViol` -/
